@@ -11,6 +11,7 @@
        [t |-> "lit",  v  |-> int]        a literal
        [t |-> "list", xs |-> <<args>>]   a list, evaluated elementwise
        [t |-> "call", f |-> label, xs |-> <<args>>]   a nested (anonymous) task
+       [t |-> "dict", ks |-> <<strings>>, xs |-> <<args>>]   a dict with literal keys ks[i], values evaluated elementwise
    Keys and labels are strings; literals are small integers, so a literal can
    never be mistaken for a key.
 
@@ -30,6 +31,7 @@ Ref(k)    == [t |-> "ref", k |-> k]
 Lit(v)    == [t |-> "lit", v |-> v]
 ListA(xs) == [t |-> "list", xs |-> xs]
 CallA(f, xs) == [t |-> "call", f |-> f, xs |-> xs]
+DictA(ks, xs) == [t |-> "dict", ks |-> ks, xs |-> xs]
 
 TaskN(f, args) == [kind |-> "task", f |-> f, args |-> args]
 DataN(a)       == [kind |-> "data", f |-> "", args |-> <<a>>]
@@ -48,7 +50,7 @@ Range(s) == {s[i] : i \in DOMAIN s}
 \* ---- references and dependency maps
 RECURSIVE ArgRefs(_)
 ArgRefs(a) == CASE a.t = "ref"  -> {a.k}
-                [] a.t \in {"list", "call"} -> UNION {ArgRefs(a.xs[i]) : i \in DOMAIN a.xs}
+                [] a.t \in {"list", "call", "dict"} -> UNION {ArgRefs(a.xs[i]) : i \in DOMAIN a.xs}
                 [] OTHER        -> {}
 
 Refs(node)  == UNION {ArgRefs(node.args[i]) : i \in DOMAIN node.args}
@@ -84,8 +86,22 @@ DenoteArg(g, a) == CASE a.t = "ref"  -> Denote(g, a.k)
                      [] a.t = "lit"  -> VLit(a.v)
                      [] a.t = "list" -> VList([i \in DOMAIN a.xs |-> DenoteArg(g, a.xs[i])])
                      [] a.t = "call" -> VApp(a.f, [i \in DOMAIN a.xs |-> DenoteArg(g, a.xs[i])])
+                     [] a.t = "dict" -> VDict({<<VStr(a.ks[i]), DenoteArg(g, a.xs[i])>> : i \in DOMAIN a.xs})
 Denote(g, k) == LET n == g[k] IN
                 CASE n.kind = "task"  -> VApp(n.f, [i \in DOMAIN n.args |-> DenoteArg(g, n.args[i])])
                   [] n.kind = "data"  -> DenoteArg(g, n.args[1])
                   [] n.kind = "alias" -> Denote(g, n.args[1].k)
+
+\* JSON has no sets: a value read from a recorded observation carries its set / dict payload as a
+\* sequence; this turns it into the value the semantics speaks about.
+RECURSIVE ValFromJson(_)
+ValFromJson(v) ==
+  CASE v.t = "set"   -> VSet({ValFromJson(v.els[i]) : i \in DOMAIN v.els})
+    [] v.t = "dict"  -> VDict({<<ValFromJson(v.kv[i][1]), ValFromJson(v.kv[i][2])>> : i \in DOMAIN v.kv})
+    [] v.t \in {"list", "tuple"} -> [t |-> v.t, xs |-> [i \in DOMAIN v.xs |-> ValFromJson(v.xs[i])]]
+    [] v.t = "app"   -> IF "kw" \in DOMAIN v
+                        THEN [t |-> "app", f |-> v.f, a |-> [i \in DOMAIN v.a |-> ValFromJson(v.a[i])],
+                              kw |-> [i \in DOMAIN v.kw |-> <<v.kw[i][1], ValFromJson(v.kw[i][2])>>]]
+                        ELSE VApp(v.f, [i \in DOMAIN v.a |-> ValFromJson(v.a[i])])
+    [] OTHER         -> v
 =============================================================================
